@@ -89,7 +89,7 @@ def arrays_in(obj, prefix='', out=None, seen=None):
         for name in obj.__dataclass_fields__:
             arrays_in(obj.__dict__.get(name), f'{prefix}.{name}', out, seen)
     elif hasattr(obj, '__dict__') and not isinstance(obj, type) \
-            and type(obj).__module__.startswith(('pb_bss', 'sim')):
+            and type(obj).__module__.startswith(('pb_bss', 'sim', 'sklearn')):
         seen.add(id(obj))
         for k, v in vars(obj).items():
             arrays_in(v, f'{prefix}.{k}', out, seen)
@@ -147,6 +147,9 @@ def first_difference(a, b, path=''):
         return None
     if isinstance(a, BaseException):
         return None
+    if hasattr(a, '__dict__') and not isinstance(a, type) \
+            and type(a).__module__.startswith(('pb_bss', 'sklearn')):
+        return first_difference(dict(vars(a)), dict(vars(b)), path)
     if isinstance(a, float) and a != a and b != b:
         return None
     if a != b:
